@@ -402,3 +402,46 @@ def r13(rr, repo):
         rr.ob("'_metrics' / '_filter' are added exactly under their switches, nothing else is", sorted(extra) == sorted(want), mod, cb, witness=f'added {sorted(extra)} with outs_metrics={m} outs_filter={f}', key=f'cb-extras|{m}|{f}')
     rr.floor('callback paths that publish nothing', n_none, 1, mod, cb)
     rr.floor('callback paths that publish', n_pub, 4, mod, cb)
+
+
+@rule('C03.R14', "one iteration of a filter moves one set through: what loop_once hands to process_frames is what recv() returned (an empty set when the sources timed out), what it hands to send() is exactly "
+                 "process_frames' result, every retry of a timed-out send offers the same result again, and process_frames runs once per iteration")
+def r14(rr, repo):
+    FIL = 'openfilter/filter_runtime/filter.py'
+    mod, fn = repo.find(f'{FIL}::Filter.loop_once')
+    ev = Evaluator(repo, mod, unroll_while=2)
+    ev.scope_node = fn
+    ev.explore_handlers = False
+    ps = ev.run(fn.body)
+    rr.paths += len(ps)
+    n = 0
+    for p in ps:
+        pf = [e for e in p.events if e.kind == 'call' and e.term == 'self.process_frames']
+        sends = [e for e in p.events if e.kind == 'call' and e.term == 'self.mq.send']
+        recvs = [e for e in p.events if e.kind == 'call' and e.term == 'self.mq.recv']
+        if p.outcome is not None and p.outcome[0] == 'raise' and not pf:
+            continue      # stopped while waiting for input
+        if not pf:
+            if p.outcome is not None and p.outcome[0] == 'loopcut':
+                continue
+            rr.violated('an iteration of loop_once ends without running process_frames', mod, fn, witness=p.pc_text()[-160:], key='loop-no-process')
+            continue
+        n += 1
+        rr.ob('process_frames runs once per iteration', len(pf) == 1, mod, pf[0].node, witness=f'{len(pf)} calls', key='loop-process-once')
+        arg = pf[0].args[0] if pf[0].args else ''
+        got = [v for k, v in p.pc if k.startswith('isnone(self.mq.recv(')]
+        if got and got[-1] is False:
+            ok = arg.startswith('self.mq.recv(')
+            rr.ob('process_frames gets what recv() returned', ok, mod, pf[0].node, witness=arg[:80], key='loop-process-input')
+        else:
+            rr.ob('after a sources timeout process_frames gets an empty set', arg == '{}', mod, pf[0].node, witness=arg[:80], key='loop-process-timeout')
+        rr.ob('the receive precedes the processing', bool(recvs) and p.events.index(recvs[0]) < p.events.index(pf[0]), mod, pf[0].node, key='loop-order-recv')
+        if not sends:
+            if p.outcome is None or p.outcome[0] != 'raise':
+                rr.violated('an iteration of loop_once processes a set and never offers the result to send()', mod, fn, witness=p.pc_text()[-160:], key='loop-no-send')
+            continue
+        want = f'self.process_frames({arg})'
+        for s_ in sends:
+            rr.ob("send() is offered exactly process_frames' result - on the first attempt and on every retry", bool(s_.args) and s_.args[0] == want, mod, s_.node, witness=(s_.args[0] if s_.args else '')[:100], key='loop-send-result')
+        rr.ob('the processing precedes the send', p.events.index(pf[0]) < p.events.index(sends[0]), mod, sends[0].node, key='loop-order-send')
+    rr.floor('iterations of loop_once that process a set', n, 4, mod, fn)
